@@ -34,6 +34,9 @@ fn main() {
                     let run: Runner<syncmgr::Post> = match cfg.backend.as_str() {
                         "r2d2" => Arc::new(move |p, obs| syncmgr::run_path::<syncmgr::R2d2>(&cfg, p, obs)),
                         "sqlite" => Arc::new(move |p, obs| syncmgr::run_path::<syncmgr::Sqlite>(&cfg, p, obs)),
+                        "diesel_verified" => Arc::new(move |p, obs| syncmgr::run_path::<syncmgr::DieselVerified>(&cfg, p, obs)),
+                        "diesel_query" => Arc::new(move |p, obs| syncmgr::run_path::<syncmgr::DieselQuery>(&cfg, p, obs)),
+                        "diesel_fn" => Arc::new(move |p, obs| syncmgr::run_path::<syncmgr::DieselFn>(&cfg, p, obs)),
                         _ => Arc::new(move |p, obs| syncmgr::run_path::<syncmgr::Diesel>(&cfg, p, obs)),
                     };
                     run_all(paths, run, &args[3..]);
